@@ -27,6 +27,8 @@ def scalar(value, *, variance=None, unit=DEFAULT, dtype=None):
         raise C.Unsupported('scalar(Variable)')
     if dtype is None and isinstance(value, float | np.floating):
         dtype = DType.float64
+    if dtype is None and hasattr(value, '__symscalar__'):
+        dtype = DType.float64
     if dtype is None and not isinstance(value, R | B | int | bool | Fraction | np.generic):
         return Variable(dims=(), values=_pyobj(value), dtype=DType.PyObject, unit=None)
     return Variable(dims=(), values=value, variances=variance, unit=unit, dtype=dtype)
